@@ -220,6 +220,7 @@ func c04Mass(b *Batch, idx int, huge bool) {
 	}
 	if lk := r.fo.LockedKeys(); len(lk) != 0 {
 		fail("lock-leaked", fmt.Sprintf("%d key lock(s) left after all Gets and background builds finished (%d builds were in flight together), e.g. %q", len(lk), inflight, lk[0]))
+		return // later Gets of those keys would only wait for the watchdog
 	}
 	for _, e := range r.snapshotLog() {
 		if e.Kind == "get.ret" && (e.Err != "" || e.Val != stale[e.Key]) {
